@@ -243,8 +243,6 @@ where
                 }
             }
         }
-        #[cfg(feature = "verif-hooks")]
-        vhost::verif::hold("c.epoll", index as u64);
         Ok(())
     }
 
@@ -285,6 +283,10 @@ where
             #[cfg(feature = "verif-hooks")]
             vhost::verif::hold("c.state", index as u64);
             self.update_vring_registration(vring, index as u8)?;
+        #[cfg(feature = "verif-hooks")]
+        vhost::verif::hold("c.epoll", index as u64);
+            #[cfg(feature = "verif-hooks")]
+            vhost::verif::hold("c.epoll", index as u64);
         }
 
         // Reset device state, retain protocol state
@@ -320,6 +322,12 @@ where
                 #[cfg(feature = "verif-hooks")]
                 vhost::verif::hold("c.state", index as u64);
                 self.update_vring_registration(vring, index as u8)?;
+        #[cfg(feature = "verif-hooks")]
+        vhost::verif::hold("c.epoll", index as u64);
+                #[cfg(feature = "verif-hooks")]
+                vhost::verif::hold("c.epoll", index as u64);
+            #[cfg(feature = "verif-hooks")]
+            vhost::verif::hold("c.epoll", index as u64);
             }
         }
 
@@ -464,6 +472,8 @@ where
         #[cfg(feature = "verif-hooks")]
         vhost::verif::hold("c.state", index as u64);
         self.update_vring_registration(vring, index as u8)?;
+        #[cfg(feature = "verif-hooks")]
+        vhost::verif::hold("c.epoll", index as u64);
 
         let next_avail = vring.queue_next_avail();
 
@@ -487,6 +497,8 @@ where
 
         if self.vring_needs_init(vring) {
             self.initialize_vring(vring, index)?;
+            #[cfg(feature = "verif-hooks")]
+            vhost::verif::hold("c.epoll", index as u64);
         }
 
         Ok(())
@@ -502,6 +514,8 @@ where
 
         if self.vring_needs_init(vring) {
             self.initialize_vring(vring, index)?;
+            #[cfg(feature = "verif-hooks")]
+            vhost::verif::hold("c.epoll", index as u64);
         }
 
         Ok(())
@@ -552,6 +566,8 @@ where
         #[cfg(feature = "verif-hooks")]
         vhost::verif::hold("c.state", index as u64);
         self.update_vring_registration(vring, index as u8)?;
+        #[cfg(feature = "verif-hooks")]
+        vhost::verif::hold("c.epoll", index as u64);
 
         Ok(())
     }
